@@ -65,6 +65,7 @@ def check(ctx):
              'two-term maps x_p^2 - x_q^2 with coefficient 1 or i, complex affine / quadratic maps with genuinely complex coefficients at exactly real / purely imaginary / partly real points where the value is exactly real / imaginary (the imaginary part of the derivative must survive); '
              '(vii) LARGE OFFSETS: f = c + Mx with integer M and constants c_r = +-m 2^K up to the point where one ulp of f_r equals delta (K = 51 - s for delta = 2^-s) and on a grid below, every value verified exactly representable in integer arithmetic by the harness: the Jacobian equals M exactly; '
              '(viii) coordinates that coincide with the step: +-delta, +-2delta, +-delta/2, complex (+-delta, +-0), (0, +-delta), (+-delta, +-delta), in random positions, every delta of the grid, on the affine, quadratic, smooth and tight-oracle families; '
+             '(ix) LARGE and extreme-aspect shapes for the affine and quadratic families, both element types: n in {31,32,33,34,40,64,65} x m in {1,2,n,2n}, tall m x n with m in {8n-1,8n,8n+1,16n,100} for n = 1..6, wide 1 x n / 2 x n; the same exact expectations checked entry by entry and point by point in integer arithmetic by the harness, logged as a count of wrong entries / illegal points (event jac_big: count = 0 and shape demanded by TLC); '
              'special points cycle through every family: exact +0.0/-0.0 coordinates, all negative, all equal, maps that ignore some variables (perturbing them leaves f bit-for-bit unchanged). One event per call; every event is non-trivial (n >= 1 coordinates perturbed); wide (m < n), tall and square shapes all occur; '
              'distinct = distinct (problem, points, result) tuples.',
         trusted=['harness closures (jacobian.rs): record the argument, evaluate the map', 'scaling of exact dyadic floats to integers (BAD when not exact)', 'TLC', 'Jacobian.tla operators'])
